@@ -143,6 +143,15 @@ def check_tables(ctx, lane, scenes, egos, div, index):
         for k in ("TP", "FP", "TN", "FN"):
             if int(got[k]) != n[k]:
                 ctx.violate("C19", "status_counts", "table holds %d %s rows, the frames' pass/fail lists hold %d" % (got[k], k, n[k]), {}, index)
+        # the same counts through the generic accessor
+        for k in ("TP", "FP", "TN", "FN"):
+            try:
+                via = int(an.get_status_num(status=k))
+            except Exception as e:  # noqa
+                ctx.violate("C19", "status_counts", "get_status_num(status=%s) raised %s" % (k, type(e).__name__), {}, index)
+                continue
+            if via != n[k]:
+                ctx.violate("C19", "status_counts", "get_status_num(status=%s) gives %d, the frames' pass/fail lists hold %d" % (k, via, n[k]), {}, index)
         if int(an.num_estimation) != n_est:
             ctx.violate("C19", "estimate_count", "table counts %d estimates, %d were evaluated" % (an.num_estimation, n_est), {}, index)
         if int(an.num_ground_truth) != n_gt_critical:
